@@ -314,6 +314,39 @@ def job_option_scaling(job):
     return out
 
 
+def job_shared_dictionary(job):
+    """the multi-country runner hands ONE option dictionary to every country: the supply series of a country must be the same
+    whether its constants are derived from a fresh dictionary or from the dictionary another country's call has already seen
+    (ALB and SLV trigger the model's rewrite of known-bad options)"""
+    first, second, pn = job
+    np = supplies._S["np"]
+    out = {"v": [], "n": 0, "states": 0}
+    try:
+        SR = supplies._S["ScenarioRunner"]
+        rows = supplies._S["rows"]
+        o = options.clean(options.preset(pn))
+        fresh = copy.deepcopy(o)
+        with common.quiet():
+            SR().set_depending_on_option(o, country_data=rows[first])
+            c, t, _ = SR().set_depending_on_option(o, country_data=rows[second])
+            c_ref, t_ref, _ = SR().set_depending_on_option(fresh, country_data=rows[second])
+        got, want = supplies.series_from_constants(c, t), supplies.series_from_constants(c_ref, t_ref)
+        for name in want:
+            out["n"] += 1
+            out["states"] += len(want[name])
+            a, b = np.asarray(got[name], dtype=float), np.asarray(want[name], dtype=float)
+            if a.shape != b.shape or not np.allclose(a, b, rtol=1e-12, atol=0):
+                m = int(np.argmax(np.abs(a - b))) if a.shape == b.shape else 0
+                out["v"].append(violation("series_" + name, {"iso3": second, "preset": pn, "after": first},
+                                          "%s %s after %s was configured from the same option dictionary: %s month %d is %r, from a fresh dictionary %r" % (
+                                              second, pn, first, name, m, float(a[m]) if a.shape == b.shape else None, float(b[m])),
+                                          {"kind": "shared_dictionary", "first": first, "second": second, "preset": pn}))
+    except Exception as e:
+        import traceback
+        return {"error": "%s: %r %s" % (job, e, traceback.format_exc()[-300:])}
+    return out
+
+
 def option_scaling_plan(tier, seed):
     isos = options.countries()
     if tier == "quick":
@@ -334,6 +367,17 @@ def run(tier, seed):
     cov["traces_validated_against_impl"] += ns
     cov["states"] += sum(r.get("states", 0) for r in sres)
     cov["transitions"] += sum(r.get("states", 0) for r in sres)
+    djobs = [(a, b, pn) for a in ("ALB", "SLV", "USA") for b in ("DZA", "USA") if a != b for pn in (("ms_example_resilient",) if tier == "quick" else ("ms_example_resilient", "yaml_nw_resilient", "ms_worst"))]
+    dres = common.pmap(job_shared_dictionary, djobs, init_fn=supplies.init, chunksize=1)
+    errors = errors + [r["error"] for r in dres if "error" in r]
+    for r in dres:
+        vs.extend(r.get("v", []))
+    nd = sum(r.get("n", 0) for r in dres)
+    cov["executions"] += nd
+    cov["traces_validated_against_impl"] += nd
+    cov["states"] += sum(r.get("states", 0) for r in dres)
+    cov["transitions"] += sum(r.get("states", 0) for r in dres)
+    cov["bound"]["shared_dictionary"] = "%d (first country, second country, preset): the second country's series from the dictionary the first country's call has seen == from a fresh dictionary" % len(djobs)
     cov["option_scaling_executions"] = ns
     cov["bound"]["option_scaling"] = "%d (country, preset, horizon) x {grass, crop} production multiplier x {0.5, 2}: series == factor x series without the option" % len(sjobs)
     cov["oracle"] = ("reference series written from the documentation: baseline x seasonality share of calendar month (4+i) mod 12 x "
@@ -348,6 +392,8 @@ def run(tier, seed):
 
 def replay(rp, pid="C08"):
     supplies.init()
+    if rp["kind"] == "shared_dictionary":
+        return job_shared_dictionary((rp["first"], rp["second"], rp["preset"])).get("v", [])
     if rp["kind"] == "option_scaling":
         return job_option_scaling((rp["iso3"], rp["preset"], rp["NMONTHS"])).get("v", [])
     if rp["kind"] == "first_round":
